@@ -212,7 +212,7 @@ func (p *Path) globalObj(g *ssa.Global) *Obj {
 	} else {
 		v = p.eng.initialGlobal(g)
 	}
-	o := &Obj{V: v, label: g.String()}
+	o := &Obj{V: v, label: g.String(), global: true}
 	p.globals[g] = o
 	return o
 }
@@ -573,6 +573,9 @@ func (p *Path) storeTo(addr Value, val Value, ins ssa.Instruction) {
 		if ptr.Obj.frozen {
 			return
 		}
+	} else if ptr.Obj.global {
+		// state kept outside the context's stores: invisible to commit hashes and lost on restart
+		p.gwrites = append(p.gwrites, ptr.Obj.label+" (in "+p.where()+")")
 	}
 	ptr.store(val)
 }
